@@ -85,13 +85,13 @@ Print Assumptions C15_initial.
 Example C15_history_example :
   let s := mkClp (mkBank [(10, [(0, 9000000000000000000000); (1, 9000000000000000000000)]);
                           (11, [(0, 9000000000000000000000); (1, 9000000000000000000000)])] [])
-        [] [] [] 0 [] [] 5 (mkCP 0 3000000000000000 [] 2 10 [(0, 7); (1, 7)] [10] 0 false) in
+        [] [] [] 0 [] [] 5 (mkCP 0 3000000000000000 [] 2 10 [(0, 7); (1, 7)] [10] 0 false [] 0) in
   let steps := [HTx 1000 (MCreatePool 10 1 5000000000000000000000 7000000000000000000000);
                 HTx 1000 (MAddLiquidity 11 1 3000000000000000000 4200000000000000000);
                 HTx 1000 (MUnlock 11 1 2000000000000000000); HNextBlock; HNextBlock;
-                HSetParams (mkCP 0 3000000000000000 [] 0 10 [(0, 7); (1, 7)] [10] 0 false);
+                HSetParams (mkCP 0 3000000000000000 [] 0 10 [(0, 7); (1, 7)] [10] 0 false [] 0);
                 HTx 1000 (MRemoveLiquidityUnits 11 1 1000000000000000000);
-                HSetParams (mkCP 0 3000000000000000 [] 2 10 [(0, 7); (1, 7)] [10] 0 false);
+                HSetParams (mkCP 0 3000000000000000 [] 2 10 [(0, 7); (1, 7)] [10] 0 false [] 0);
                 HTx 1000 (MRemoveLiquidityUnits 11 1 500000000000000000)] in
   CInv s /\ Forall step_ok steps /\
   option_map (fun l => (lp_units l, usum (lp_unlocks l))) (find_lp (fold_left hstep steps s) 1 11) = Some (1500000000000000000, 500000000000000000).
